@@ -61,6 +61,32 @@ def run(P, rep, tier):
         rep.floor(r2, 20)
 
 
+def reader_scope_rule(P, rep, rid):
+    """The K1 reader exploration as a rule of another property (C01-R7, C03-R6)."""
+    R = ReaderRoles(P)
+    table = P.fold_module_const('pydiffx.sections', 'VALID_SECTION_STATES')
+    RK = k1.ReaderK1(P, R, table)
+    RK.capture_templates()
+
+    def rsucc(seq):
+        return [seq + [(n, d)] for n in sorted(table[seq[-1][0]]) for d in (False, True)]
+    seen, problems = k1.explore_parallel(RK, [[('diffx', d)] for d in (False, True)], rsucc,
+                                         lambda seq, res: (seq[-1][0], res['sig']))
+    _report(rep, rid, R.entry, problems, seen, RK.transitions, 'reader', fmt_seq)
+    return not problems
+
+
+def writer_scope_rule(P, rep, rid):
+    WK = k1.WriterK1(P)
+
+    def wsucc(seq):
+        return [seq + [(n, d)] for n, _ in WK.CALLS for d in (False, True)]
+    wseen, wproblems = k1.explore_parallel(WK, [[(n, d)] for n, _ in WK.CALLS for d in (False, True)], wsucc,
+                                           lambda seq, res: res['sig'])
+    _report(rep, rid, WK.cls.find_method('__init__'), wproblems, wseen, WK.transitions, 'writer', fmt_seq)
+    return not wproblems
+
+
 def _report(rep, rid, fi, problems, seen, transitions, side, fmt):
     if problems:
         problems.sort(key=lambda x: len(x[0]))
